@@ -9,7 +9,7 @@ RULE = ("value classes per kind: numbers (rounding ties, 0, negatives, 10^k +- 1
         "that has an alias or symbol the reader knows (from config.json: TRY USD SEK DKK BGN EUR; negative amounts), durations (1-7 parts of every "
         "unit, carry boundaries, en and tr), times with every 2-4 letter zone class, times under default zones with whole-hour and fractional offsets, dates (full and current-year form, every month, en and tr), "
         "all 33 units x amounts, dates in the years 1-150 reached by subtracting years, based integers (hex / octal / binary up to 2^60, hex digits that contain 0B0 / 0B1 / 0E / 0D) x separator conventions (',' '.'), ('.' ','), ('.' ''), (',' '') "
-        "x number / percentage digit configurations (0-4 digits, remove-zero and rounding flags) ; oracle: the printed form of the line, entered "
+        "x number / percentage digit configurations (0-9 digits, remove-zero and rounding flags; the quick tier always includes 4 digits rounded and 5-6 digits unrounded) ; oracle: the printed form of the line, entered "
         "as a new line under the same configuration and language, prints identically; non-trivial = printed form differs from the entered text; "
         "distinct = distinct (configuration, language, text)")
 ASSUMPTIONS = ["date-times are not in the property's list of kinds", "a currency counts as readable when config.json gives the reader an alias or symbol for it"]
@@ -123,9 +123,15 @@ def run(ctx, model_ok):
         if gi < 4:
             nd, pd = [2, True, True], [2, True, True]
             money = [False, True]
+        elif gi == 4:
+            # many printed fraction digits, nothing removed, rounded: every digit of the print must be read back
+            nd, pd, money = [4, False, True], [4, False, True], [False, True]
+        elif gi == 5:
+            # no rounding: the value is printed with all its digits
+            nd, pd, money = [6, True, False], [5, False, False], [True, False]
         else:
-            nd = [rng.randint(0, 4), rng.random() < 0.5, rng.random() < 0.8]
-            pd = [rng.randint(0, 4), rng.random() < 0.5, rng.random() < 0.8]
+            nd = [rng.randint(0, 9), rng.random() < 0.5, rng.random() < 0.8]
+            pd = [rng.randint(0, 9), rng.random() < 0.5, rng.random() < 0.8]
             money = [rng.random() < 0.5, rng.random() < 0.8]
         cfgop = {"op": "cfg", "dec": dec, "thou": thou, "num": nd, "pct": pd, "money": money}
         cases = [gen_case(rng, dec, this_year) for _ in range(ctx.n(700, 4000))]
